@@ -207,6 +207,8 @@ pub enum UserReq {
     WriteDeadBands(Vec<(u16, u16)>),
     LinkStatus,
     EmptyResponse(u8),
+    /// dead-band write: variation (1 u16 | 2 u32 | 3 f32), 16-bit indices?, (index, value)
+    WriteDeadBandsV(u8, bool, Vec<(u16, f64)>),
     /// read a remote file through a recording FileReader (the outcome is its terminal callback)
     ReadFile(u16),
     GetFileInfo,
@@ -443,6 +445,17 @@ impl MasterSim {
                 UserReq::WarmRestart => format!("{:?}", h.warm_restart().await),
                 UserReq::WriteDeadBands(v) => format!("{:?}", h.write_dead_bands(vec![DeadBandHeader::group34_var1_u16(v)]).await),
                 UserReq::LinkStatus => format!("{:?}", h.check_link_status().await),
+                UserReq::WriteDeadBandsV(var, wide, items) => {
+                    let hdr = match (var, wide) {
+                        (1, false) => DeadBandHeader::group34_var1_u8(items.iter().map(|(i, v)| (*i as u8, *v as u16)).collect()),
+                        (1, true) => DeadBandHeader::group34_var1_u16(items.iter().map(|(i, v)| (*i, *v as u16)).collect()),
+                        (2, false) => DeadBandHeader::group34_var2_u8(items.iter().map(|(i, v)| (*i as u8, *v as u32)).collect()),
+                        (2, true) => DeadBandHeader::group34_var2_u16(items.iter().map(|(i, v)| (*i, *v as u32)).collect()),
+                        (_, false) => DeadBandHeader::group34_var3_u8(items.iter().map(|(i, v)| (*i as u8, *v as f32)).collect()),
+                        (_, true) => DeadBandHeader::group34_var3_u16(items.iter().map(|(i, v)| (*i, *v as f32)).collect()),
+                    };
+                    format!("{:?}", h.write_dead_bands(vec![hdr]).await)
+                }
                 UserReq::ReadFile(max_block) => {
                     // the outcome is pushed by the reader's terminal callback; only a refused submission is reported here
                     let reader = RecFileReader { shared: shared.clone(), id, t0, blocks: 0, bytes: 0, opened: None };
